@@ -296,6 +296,9 @@ def real_run(case):
         shutil.rmtree(d, ignore_errors=True)
 
 
+real_run = common.with_history(real_run)
+
+
 def tables(case, t):
     """parsed tables of frame t as the reader returns them (Nmax truncation)"""
     nb = parse_table(case["nb"][t], case["Nmax"])
@@ -751,7 +754,10 @@ def correspond(run):
         for l in (4, 6):
             cases.append(model_shell_case(run.rng, name, l, True))
             cases.append(model_shell_case(run.rng, name, l, False))
-    cases += [gen_case(run.rng, run.tier) for _ in range(n)]
+    def sibling(rng, c):
+        # same cell, mask, frames, degree, neighbour definition — every position moved a little (explicit lists stay valid)
+        return dict(c, frames=[common.jitter_positions(rng, fr, 0.1, 3) for fr in c["frames"]])
+    cases += common.add_siblings(run.rng, [gen_case(run.rng, run.tier) for _ in range(n)], sibling, every=5)
     dis, prop, skipped = [], [], {}
     for case in cases:
         st, why = run_case(run, case)
